@@ -47,6 +47,10 @@ pub struct Case {
     /// Key universe (0 = the default of 8).
     #[serde(default)]
     pub universe: u8,
+    /// The deque starts from a container already holding keys 0..init (live, ascending),
+    /// handed to `SortedDeque::new(items, marker)` instead of `Default`.
+    #[serde(default)]
+    pub init: u8,
 }
 
 /// Whole-item convention: ordered by key first; erased = no value.
@@ -444,8 +448,18 @@ where
     V: Conv,
     C: PushTruncateContainer<Item = V::Item> + Clone + Default,
 {
-    let mut deque: SortedDeque<C, V::Marker> = Default::default();
     let mut model = Model::default();
+    let mut deque: SortedDeque<C, V::Marker> = if case.init == 0 {
+        Default::default()
+    } else {
+        let mut items = C::default();
+        for k in 0..case.init.min(universe()) {
+            items.push(V::live(k, k.wrapping_add(10)));
+            model.map.insert(k, k.wrapping_add(10));
+            model.order.push((k, Slot::Present));
+        }
+        SortedDeque::new(items, Default::default())
+    };
     let mut stats = Stats::default();
     observe::<C, V>(&deque, &model, "new")?;
     // A second deque with a history of its own, which becomes a copy of the first through
@@ -594,7 +608,7 @@ where
                 result = dfs::<C, V>(&deque, &model, stats, &mut path, depth, &alphabet, &mut counts);
             }
             if let Err((ops, fail)) = result {
-                let case = Case { convention, ops, universe: 0 };
+                let case = Case { convention, ops, universe: 0, init: 0 };
                 let fail = match engine::guarded(&case, &check_case) {
                     Err(f) => f,
                     Ok(_) => fail,
@@ -630,12 +644,13 @@ fn case_strategy(max_ops: usize) -> impl Strategy<Value = Case> {
         proptest::collection::vec(op_strategy(), 0..max_ops),
         // Optionally end on a push that must panic.
         proptest::option::weighted(0.15, (any::<u8>(), any::<u8>())),
+        prop_oneof![3 => Just(0u8), 1 => 1u8..6],
     )
-        .prop_map(|(convention, mut ops, bad)| {
+        .prop_map(|(convention, mut ops, bad, init)| {
             if let Some((back, value)) = bad {
                 ops.push(Op::PushBad { back, value });
             }
-            Case { convention, ops, universe: 0 }
+            Case { convention, ops, universe: 0, init }
         })
 }
 
@@ -673,7 +688,7 @@ fn long_run_strategy() -> impl Strategy<Value = Case> {
             ops.push(Op::PopFirst);
             ops.push(Op::PopLast);
             ops.extend(tail);
-            Case { convention, ops, universe: 250 }
+            Case { convention, ops, universe: 250, init: 0 }
         })
 }
 
